@@ -20,6 +20,7 @@ func init() {
 			"PV-WHOLE openLog: every successful return follows the ContainerLogs request",
 			"PV-WHOLE SetAttrs visits every attribute",
 			"FE-BOOL IsInstant",
+			"PV-VERBATIM the bounds of a log query reach Querier.SelectLogs unadjusted",
 		},
 		NotDecided: []string{"the Docker daemon's own since/until semantics", "regexp engine semantics", "that strconv/time functions meet their contracts"},
 		Rules: func(r *Run) {
@@ -39,6 +40,7 @@ func init() {
 			ruleOpenLogAlwaysAsks(r)
 			ruleSetAttrsWhole(r)
 			ruleIsInstant(r) // which window the daemon is asked for
+			ruleLogBoundsVerbatim(r)
 		},
 	})
 }
